@@ -604,6 +604,8 @@ def rule_unsorted_removal_moves(ctx, rule='R14.14'):
 
 
 def run(ctx):
+    from . import edges
+    edges.rule_hash_stores(ctx, 'R14.15')            # a particle keeps the hash it was given
     rule_unsorted_removal_moves(ctx)
     from . import c15
     c15.rule_leaf_occupancy(ctx)     # R15.13: a removed (flagged) particle stays reachable until the tree update drops it
